@@ -406,6 +406,61 @@ theorem outer_returns (r : SOuter ν) (hc : ConvsReturn r.fields)
   | err e =>
       exact finishChecked_returns r hc (st.push e) av (good_push _ _) (fun _ _ => by simp [PState.push]) lateParts hl early build msg
 
+/-! ### the same argument for FromMeta struct receivers (no distinctness hypothesis needed) -/
+
+theorem coreLoop_good (s : SStruct ν) (hc : ConvsReturn s) (items : List NestedMeta) (st : PState ν) (hg : Good st) :
+    ∃ st', coreLoop s st items = .ok st' ∧ Good st' := by
+  have := runAtoms_good s hc (items.map .item) st hg
+  rwa [C08.runAtoms_items] at this
+
+/-- `require_fields` … `Ok(Self { .. })` of a struct parser returns from every good state -/
+theorem finishStruct_returns (s : SStruct ν) (hc : ConvsReturn s) (flattenHere : Bool) (loc : Option String)
+    (st : PState ν) (hg : Good st) : ∀ msg, finishStruct s flattenHere loc st ≠ .panic msg := by
+  intro msg
+  unfold finishStruct
+  have h1 : ∃ st1, (if flattenHere then flattenInit s st else Except.ok st) = .ok st1 ∧ Good st1 := by
+    cases flattenHere with
+    | true => obtain ⟨st1, h, g, _⟩ := flattenInit_good s hc st hg; exact ⟨st1, by simpa using h, g⟩
+    | false => exact ⟨st, rfl, hg⟩
+  obtain ⟨st1, h1e, g1⟩ := h1
+  simp only [h1e]
+  obtain ⟨_, _⟩ := checkMissing_good s.fields st1 g1
+  have hck := checkMissing_checked s.fields st1 g1
+  cases he : (checkMissing s.fields st1).errs with
+  | cons e es =>
+      simp only []
+      have hb := bundleErr_returns (ν := ν) (e :: es) (by simp)
+      cases loc with
+      | none => exact hb msg
+      | some l =>
+          simp only []
+          intro h
+          cases hbe : (Err.bundleErr (e :: es) : Outcome ν) with
+          | ok v => rw [hbe] at h; cases h
+          | err e' => rw [hbe] at h; cases h
+          | panic m => exact hb m hbe
+  | nil =>
+      simp only []
+      have hin := initFields_returns s hc (checkMissing s.fields st1) s.fields (fun _ h => h)
+        (fun f hf hm hd => by
+          rcases hck f hf hm hd with h | h
+          · exact absurd he h
+          · exact h)
+      cases hI : initFields s (checkMissing s.fields st1) s.fields with
+      | ok kvs => simpa using hc.post _ msg
+      | err e => simp
+      | panic m => exact absurd hI (hin m)
+
+/-- **A derived struct `FromMeta` receiver returns on every item list**, given only that its
+    converters, list hooks and post-transform return and inherited defaults have a source -/
+theorem struct_fromList_returns (s : SStruct ν) (hc : ConvsReturn s) (items : List NestedMeta) :
+    (Derive.fromList s items).Returns := by
+  intro msg
+  unfold Derive.fromList
+  obtain ⟨st, h, g⟩ := coreLoop_good s hc items {} good_init
+  rw [h]
+  exact finishStruct_returns s hc true none st g msg
+
 /-- body conversion returns when the entry converters do (`C16.data_fails_iff`), unions included -/
 theorem data_returns (fconv : FieldD → Outcome ν) (vconv : VariantD → Outcome ν)
     (mkStruct : Style → List ν → ν) (mkEnum : List ν → ν) (b : BodyD) (hnp : C16.BodyNoPanic fconv vconv b) (msg : String) :
